@@ -131,6 +131,29 @@ def run_engine(module, qualname, args, opts=None, setup=None, inline_all=True, m
         if len(objs) != 1 or isinstance(objs[0][1], Raised):
             raise EngineError('differential: constructor forks / raises')
         p, obj = objs[0]
+        if ctx.opts.get('history'):
+            # args[1]: [[method, [arguments]], ...] executed in order on the same object; the result is the list of returned values
+            rets = []
+            for meth_k, margs in args[1]:
+                mv = [obj] + [to_val(p, a) for a in margs]
+                outs = list(ex.run_function(p, module, f'{cls}.{meth_k}', mv))
+                if len(outs) != 1:
+                    keep = []
+                    for q, o in outs:
+                        sv = z3.Solver()
+                        for c in q.pc:
+                            sv.add(c)
+                        if sv.check() != z3.unsat:
+                            keep.append((q, o))
+                    outs = keep
+                if len(outs) != 1:
+                    raise EngineError(f'differential: {len(outs)} feasible paths in a call history')
+                p, o = outs[0]
+                if isinstance(o, Raised):
+                    rets.append(('raise', o.cls))
+                    break
+                rets.append(from_val(p, o.val))
+            return ('ret', rets, None)
         vals = [obj] + [to_val(p, a) for a in args[1:]]
     else:
         vals = [to_val(p, a) for a in args]
@@ -182,13 +205,14 @@ def run_for_property(sess):
     from contracts import diffcases
     from .session import native
     bad = []
-    if sess.prop in ('C05', 'C07'):
+    if sess.prop in ('C05', 'C07', 'C04', 'C06', 'C16'):
         bad += run_serial_differential(sess)
     for module, qual, cases, opts in diffcases.cases_for(sess.prop, sess.seed):
         opts = dict(opts)
 
         def nat(cs, _m=module, _q=qual, _o=opts):
-            return native('n_diff', 'call', {'module': _m, 'qualname': _q, 'cases': cs, 'dps': _o.get('ghost_dps', 15), 'ctor': _o.get('ctor', False)})
+            return native('n_diff', 'call', {'module': _m, 'qualname': _q, 'cases': cs, 'dps': _o.get('ghost_dps', 15), 'ctor': _o.get('ctor', False),
+                                           'history': _o.get('history', False)})
         bad += compare(sess, module, qual, cases, nat, opts=opts)
     return bad
 
@@ -211,11 +235,17 @@ def scripted_port(script):
                 yield p, R('SerialException', node=node)
                 return
             p.events.append(('write', args[0]))
+            if script.get('ack') and args[0].is_lit():
+                # acknowledging device (same rule as native/n_diff.py): reply = request name + scripted data
+                text = args[0].lit()
+                name = text.split(',')[0].split('\r')[0]
+                st['extra'] = list(st.get('extra', [])) + [name + script.get('data', '') + '\r\n']
             yield p, I(len(args[0].lit()) if args[0].is_lit() else 0)
         elif method == 'readline':
             k = st['k']
             st['k'] += 1
-            item = state['reads'][k] if k < len(state['reads']) else ''
+            allreads = state['reads'] + list(st.get('extra', []))
+            item = allreads[k] if k < len(allreads) else ''
             if isinstance(item, str) and item.startswith('EXC'):
                 yield p, R(item.split(':', 1)[1] if ':' in item else 'SerialException', node=node)
                 return
@@ -238,9 +268,9 @@ def run_serial(layer, method, args, script, state=None):
     ex = Exec(ctx)
     p = Path()
     port = VHandle('port', 'port0')
-    if layer == 'legacy':
+    if layer in ('legacy', 'legacy_motion'):
         vals = [port] + [to_val(p, a) for a in args]
-        outs = list(ex.run_function(p, 'plotink.ebb_serial', method, vals))
+        outs = list(ex.run_function(p, 'plotink.ebb_serial' if layer == 'legacy' else 'plotink.ebb_motion', method, vals))
         obj = None
     else:
         st = state or {}
@@ -288,9 +318,50 @@ def serial_cases(seed):
     return cases
 
 
+def request_cases(seed):
+    """every public request method of EBB3 / EBBMotionWrap and every legacy sender, on concrete arguments, against an acknowledging
+    device (reply = request name + scripted data) or a silent one"""
+    import random
+    from contracts import methods as M
+    rnd = random.Random(seed + 1)
+    cases = []
+    ints = [0, 1, 2, 5, 7, 100, 750, 751, 1800, 65535, -3, 2 ** 31 - 1, -2 ** 31]
+    for meth in M.request_methods():
+        if meth in ('command', 'query', 'query_statusbyte', 'reboot', 'bootload'):
+            continue
+        for _ in range(6):
+            args = []
+            for _nm, kind in M.METHODS[meth]:
+                if kind == 'int':
+                    args.append(rnd.choice(ints))
+                elif kind == 'optint':
+                    args.append(rnd.choice([None, 0, 1, 4, 300]))
+                elif kind == 'str':
+                    args.append(rnd.choice(['Bob', ' East EBB ', '', 'x' * 17]))
+                else:
+                    args.append(None)
+            script = {'reads': [], 'write_exc_at': [], 'ack': rnd.random() < 0.8, 'data': rnd.choice(['', ',1', ',12,34', ',0,0', ',x'])}
+            cases.append(('ebb3', meth, args, script))
+    from . import front
+    mi = front.load('plotink.ebb_motion')
+    for fn in sorted(mi.funcs):
+        node = mi.func(fn)
+        names = [a.arg for a in node.args.args]
+        if not names or names[0] != 'port_name' or fn.startswith('_'):
+            continue
+        nd = len(node.args.defaults)
+        for _ in range(4):
+            args = []
+            for j, _nm in enumerate(names[1:]):
+                optional = j >= len(names[1:]) - nd
+                args.append(rnd.choice([None, 0, 3] if optional else ints[:10]))
+            cases.append(('legacy_motion', fn, args, {'reads': ['OK\r\n'] * 4, 'write_exc_at': []}))
+    return cases
+
+
 def run_serial_differential(sess):
     from .session import native
-    cases = serial_cases(sess.seed)
+    cases = serial_cases(sess.seed) if sess.prop in ('C05', 'C07') else request_cases(sess.seed)
     nat = native('n_diff', 'serial', {'cases': [[c[0], c[1], c[2], c[3]] for c in cases]})
     bad = []
     for c, nv in zip(cases, nat):
@@ -305,5 +376,5 @@ def run_serial_differential(sess):
             ok = same(ev['ret'], nv['ret']) and ev['writes'] == nv['writes'] and ev.get('err_set') == nv.get('err_set')
         if not ok:
             bad.append({'function': f'{c[0]}.{c[1]}', 'args': repr(c[2:]), 'engine': repr(ev), 'native': nv})
-    sess.extra_cov.setdefault('engine_vs_cpython', []).append({'function': 'serial layer (command/query/query_statusbyte, both layers)', 'cases': len(cases), 'disagreements': len(bad)})
+    sess.extra_cov.setdefault('engine_vs_cpython', []).append({'function': 'serial layer (command/query/query_statusbyte, both layers)' if sess.prop in ('C05', 'C07') else 'every request method of EBB3/EBBMotionWrap and every ebb_motion sender', 'cases': len(cases), 'disagreements': len(bad)})
     return bad
